@@ -4,17 +4,30 @@
 package main
 
 import (
+	"verif/hconn"
 	"verif/hmodel"
 	"verif/vlib"
 )
 
 func main() {
 	hmodel.RegisterHandlerLevel()
+	ids := hconn.RegisterIds()
 	if hmodel.Dispatch() {
 		return
 	}
 	c := vlib.New("C10", "model_checking")
 	t := &hmodel.Totals{}
 	hmodel.RunHandlerLevel(c, "C10", t, "panic", "deadlock", "livelock")
-	hmodel.Finish(c, t, "BFS: a state is the canonical dump of the real handler (in-flight entries with managed/queued/done, free-id FIFO in order, closed flag); every transition is the real operation compared with the reference model, plus a conservation probe (answer everything, then N managed sends) from every reachable state. Explore: a schedule is a vector of scheduler choices (preemption-bounded); outcomes are distinct observation logs.")
+	// connection level: the real client connection against a raw peer that records the ids on the wire
+	for _, d := range ids {
+		if !d.Quick && !c.Thorough() {
+			continue
+		}
+		b := d.QB
+		if c.Thorough() {
+			b = d.TB
+		}
+		hmodel.RunArgs(c, "C10", t, d.Name, d.Args, b, "panic", "deadlock", "livelock", "leak", "setup", "peer", "harness")
+	}
+	hmodel.Finish(c, t, "BFS: a state is the canonical dump of the real handler (in-flight entries with managed/queued/done, free-id FIFO in order, closed flag); every transition is the real operation compared with the reference model, plus a conservation probe (answer everything, then N managed sends) from every reachable state. Explore: a schedule is a vector of scheduler choices (preemption-bounded); outcomes are distinct observation logs. Connection level: the real CqlClientConnection over the in-memory network against a raw peer thread that records the stream ids it sees; every answer permutation of 2 and 3 outstanding requests on every version (delay-bounded schedules), an event and a response for an unknown id interleaved, interleaved continuous pages on DSE, and N+1 senders against a silent peer (exhaustion).")
 }
